@@ -333,7 +333,6 @@ func privateKeyRawIsCopy(c *an.Check) {
 	c.Require(ok, "OWNERSHIP", "crypto.Ed25519PrivateKey.Raw returns a copy of the key bytes", raw, "", 1, "returned slice does not alias the key field", why)
 }
 
-
 // keyUnmarshalDispatchGates: the protobuf key wrappers succeed only past the protobuf decode and call a key-type specific
 // unmarshaller only after a successful registry lookup for the message's own key type, on the message's own data (a
 // known-but-unregistered type must be an error, not a call through a nil function). Shared by C11 and C39.
